@@ -122,7 +122,7 @@ def run(ctx):
     #     by every state (EarlyRetained), every honest quorum completes under fairness (Completes); the variant in which the
     #     silent symmetric-key state ignores messages is refuted on both
     MALL = ["DoStart", "DoInitiate", "DoTransition", "DoFinish", "DoDeliver"]
-    for cfg in ctx.pick(["MC_S2"], ["MC_S2", "MC_S2intruder"]):   # MC_S3 (3 signers, 300 k states) is kept for manual runs
+    for cfg in ctx.pick(["MC_S2"], ["MC_S2", "MC_S3"]):   # MC_S2intruder (4.6 M states, ~10 min) is kept for manual runs
         r = ctx.tlc(MSPEC, "MC_SigningMachine", cfg=cfg, coverage=True, label=cfg, timeout=ctx.pick(900, 3000))
         ctx.require_coverage(r, MALL + (["DoDeliverDup", "DoDeliverForged"] if cfg == "MC_S2" else []), cfg)
     ctx.tlc(MSPEC, "MC_SigningMachine", cfg="MC_Live", label="MC_Live", timeout=1500)
